@@ -727,6 +727,14 @@ def _nested_cases(tier, rng):
     # the family (P Q):S — the range operator applied to an intersection
     for _ in range(1500 if tier == 'quick' else 100000):
         out.append(('add', ('and', ('leaf', rng.choice(R)), ('leaf', rng.choice(R))), ('leaf', rng.choice(singles))))
+    # an area intersected with a union (and with a union of intersections): the result may be ONE area whose cells come from several
+    # value arrays (the defect repaired by 69d732a showed only on such inputs)
+    out.append(('and', ('leaf', (4, 2, 4, 4)), ('or', ('and', ('leaf', (3, 2, 3, 4)), ('leaf', (1, 1, 4, 2))), ('leaf', (1, 1, 4, 3)))))
+    for _ in range(800 if tier == 'quick' else 50000):
+        u = ('or', ('leaf', rng.choice(R)), ('leaf', rng.choice(R)))
+        if rng.random() < 0.4:
+            u = ('or', ('and', ('leaf', rng.choice(R)), ('leaf', rng.choice(R))), ('leaf', rng.choice(R)))
+        out.append(('and', ('leaf', rng.choice(R)), u) if rng.random() < 0.5 else ('and', u, ('leaf', rng.choice(R))))
     for _ in range(2500 if tier == 'quick' else 300000):
         t = _nested_tree(rng, R, 2 if rng.random() < 0.7 else 3)
         if t[0] != 'leaf':
